@@ -97,7 +97,9 @@ func (dc *dcache3) isEmpty(c *cube) bool {
 	s := 1 << (c.n - 1) // half side
 	_, d := dc.evaluate(c.v.AddScalar(s))
 	// compare to the center/corner distance
-	return math.Abs(d) >= dc.hdiag[c.n]
+	// The test is strict and leaves a rounding margin: a surface that only touches a
+	// corner of the cube still generates output in the cells at that corner.
+	return math.Abs(d) > dc.hdiag[c.n]*(1+emptyMargin)
 }
 
 // Process a cube. Generate triangles, or more cubes.
